@@ -158,9 +158,10 @@ theorem columnsWidths_length (o : ColumnsOpts) (measured : List Int) :
 def columnsCount (v : Variant) (o : ColumnsOpts) (p : PadDims) (measured : List Int) (maxWidth : Int) : Except PyErr Nat :=
   match o.width with
   | some cwid =>
-    if cwid + max (p.left : Int) p.right == 0 then .error .zeroDivision
-    else .ok (if v.columnsZeroCount then (maxWidth / (cwid + max (p.left : Int) p.right)).toNat
-              else max 1 (maxWidth / (cwid + max (p.left : Int) p.right)).toNat)
+    if v.columnsZeroCount then
+      if cwid + max (p.left : Int) p.right == 0 then .error .zeroDivision
+      else .ok (maxWidth / (cwid + max (p.left : Int) p.right)).toNat
+    else .ok (max 1 (maxWidth / (max 1 (cwid + max (p.left : Int) p.right))).toNat)
   | none => .ok (searchLoop o.columnFirst (columnsWidths o measured) (max (p.left : Int) p.right) maxWidth
       (measured.length + 1) measured.length)
 
@@ -306,7 +307,9 @@ theorem columnsLayout_error (v : Variant) (o : ColumnsOpts) (measured : List Int
     have he' : e' = .zeroDivision := by
       unfold columnsCount at hc
       split at hc
-      · split at hc <;> cases hc; rfl
+      · split at hc
+        · split at hc <;> cases hc; rfl
+        · cases hc
       · cases hc
     subst he'
     simp only [Except.error.injEq, reduceCtorEq, or_false, and_true]
@@ -325,8 +328,8 @@ theorem columnsLayout_error_iff (v : Variant) (o : ColumnsOpts) (measured : List
     (hne : measured ≠ []) (hp : unpackPad o.padding = .ok p) :
     columnsLayout v o measured maxWidth = .error .zeroDivision ↔
       match o.width with
-      | some cw => cw + max (p.left : Int) p.right = 0 ∨
-          (v.columnsZeroCount = true ∧ maxWidth / (cw + max (p.left : Int) p.right) ≤ 0)
+      | some cw => v.columnsZeroCount = true ∧
+          (cw + max (p.left : Int) p.right = 0 ∨ maxWidth / (cw + max (p.left : Int) p.right) ≤ 0)
       | none => searchLoop o.columnFirst (columnsWidths o measured) (max (p.left : Int) p.right) maxWidth
           (measured.length + 1) measured.length = 0 := by
   rw [columnsLayout_error v o measured maxWidth p hne hp]
@@ -335,9 +338,9 @@ theorem columnsLayout_error_iff (v : Variant) (o : ColumnsOpts) (measured : List
   | none => simp
   | some cw =>
     simp only [true_and]
-    by_cases h0 : cw + max (p.left : Int) p.right = 0
-    · simp [h0]
-    · cases hz : v.columnsZeroCount
+    cases hz : v.columnsZeroCount
+    · simp
+    · by_cases h0 : cw + max (p.left : Int) p.right = 0
       · simp [h0]
       · simp [h0, Int.toNat_eq_zero]
 
